@@ -302,7 +302,7 @@ func init() {
 		Rule:   "scenario family with 0..2 claim templates, set names with dashes/digits, stale claim caches and faults on claim creates; the ordered write log of the real pod control is checked for identity stamping, claims-before-pod and claim immutability; directed slot-in/slot-out histories check that the same claim objects (UID) come back; non-trivial = reconcile that created a pod",
 		Assume: simAssumptions, Cases: scenarioCases(4800, 96000),
 		Run:    scenarioFamily("C06", cfgDefault, mon.CheckC06, hasPodCreate, directedC06),
-		Floors: []string{"created_pods_checked", "claim_creates_checked", "claim_bindings_checked", "claim_history_scenarios"}})
+		Floors: []string{"created_pods_checked", "claim_creates_checked", "claim_bindings_checked", "claim_history_scenarios", "claim_history_scenarios_with_lost_claim"}})
 	register(&Check{Prop: "C08", Level: "exploration",
 		Rule:   "scenario family with template edits, rollbacks (4 template versions), non-template edits, stray revisions; after every successful reconcile the believed update revision must mirror the cached template (independent decode and the exported ApplyRevision); revision creates / renumbers are checked; directed name-collision scenarios; non-trivial = reconcile that created or renumbered a revision",
 		Assume: simAssumptions, Cases: scenarioCases(4800, 96000),
